@@ -23,9 +23,22 @@ from .. import common as cm
 
 PROP = 'C06'
 THEOREMS = [
+    # the history invariant: rectangular, typed, row counts = natoms, distinct keys, atype >= 1, atype/pos present
     'C06.inv_run', 'C06.inv_stepWith', 'C06.inv_step', 'C06.inv_reachable', 'C06.inv_history',
     'C06.inv_rectangular', 'C06.reachable_rectangular', 'C06.inv_atype_ge_one', 'C06.reachable_atype_ge_one',
     'C06.inv_natypes_min',
+    # symbols / masses padding
+    'C06.symbols_padded', 'C06.masses_padded', 'C06.sysNatypes_ge', 'C06.symbolsSet_pads',
+    # refinement to the record-per-atom specification: slicing / copying
+    'C06.refines_getItem', 'C06.refines_deepcopy', 'C06.deepcopy_rows', 'C06.getItem_error_unchanged',
+    'C06.GetItemRes.operand_unchanged', 'C06.GetItemRes.copy_fresh', 'C06.deepcopy_fresh',
+    'C06.GetItemRes.slice_is_view',
+    # refusals
+    'C06.viewSet_len_mismatch_rejects', 'C06.viewSet_atype_lt_one_rejects', 'C06.propSet_atype_lt_one_rejects',
+    'C06.assign_shape_mismatch_rejects', 'C06.assign_oob_rejects', 'C06.setItem_keys_mismatch_rejects',
+    'C06.resolve_int_out_of_range', 'C06.resolve_zero_step', 'C06.resolve_mask_length', 'C06.propGet_missing_key',
+    'C06.pbcSet_bad_length_rejects', 'C06.sysExtend_scale_int_rejects', 'C06.propAtype_scalar_rejects',
+    'C06.mkAtoms_rolls_back', 'C06.step_format', 'C06.step_unmodelled',
 ]
 PARTIAL = {}
 RULE = ''
